@@ -54,7 +54,8 @@ inductive Elem where
 freshly built container. -/
 inductive FRes where
   | existing (v : Id)
-  | fresh (elems : List Elem)
+  /-- `frozen`: the outer container is a tuple (cannot be mutated itself) -/
+  | fresh (elems : List Elem) (frozen : Bool := false)
   deriving DecidableEq, Repr, Inhabited
 
 /-- Everything shared by all objects: allocation counter, heap, logs, callback ordinals. -/
@@ -63,12 +64,14 @@ structure Ctx where
   alloc : Nat := 0
   /-- container id ↦ element ids (shallow) -/
   heap : List (Id × List Id) := []
+  /-- immutable containers (tuples) -/
+  frozen : List Id := []
   /-- user change-handler invocations, oldest first -/
   log : List Call := []
   /-- `post_setattr` invocations `(object, value)` -/
   postLog : List (Id × Id) := []
-  /-- default factory invocations `(callable, object)` -/
-  fcalls : List (Id × Id) := []
+  /-- default factory invocations `(callable, object, attribute name)` -/
+  fcalls : List (Id × Id × Name) := []
   /-- number of validator invocations so far (the validator's call ordinal) -/
   nval : Nat := 0
   deriving DecidableEq, Repr, Inhabited
@@ -121,9 +124,10 @@ def Ctx.allocElems (c : Ctx) : List Elem → List Id × Ctx
 /-- Materialise a factory result: inner containers first, then the outer one. -/
 def Ctx.allocRes (c : Ctx) : FRes → Id × Ctx
   | .existing v => (v, c)
-  | .fresh es =>
+  | .fresh es fr =>
     let (vs, c1) := c.allocElems es
-    c1.newContainer vs
+    let (i, c2) := c1.newContainer vs
+    (i, if fr then { c2 with frozen := c2.frozen ++ [i] } else c2)
 
 /-- `traitd->validate(traitd, obj, name, value)`; the call ordinal is the number
 of earlier validator calls. -/
@@ -133,7 +137,7 @@ def runValidate (E : Env) (t : TraitCore) (v : Id) (c : Ctx) : Except Exc Id × 
   | some k => (E.validate k c.nval v, { c with nval := c.nval + 1 })
 
 /-- `default_value_for(trait, obj, name)` (ctraits.c:1840-1913). -/
-def defaultValueFor (E : Env) (t : TraitCore) (obj : Id) (c : Ctx) : Except Exc Id × Ctx :=
+def defaultValueFor (E : Env) (t : TraitCore) (obj : Id) (name : Name) (c : Ctx) : Except Exc Id × Ctx :=
   if t.dvt = Generated.CONSTANT_DEFAULT_VALUE ∨ t.dvt = Generated.MISSING_DEFAULT_VALUE then
     -- result = trait->default_value; if (result == NULL) result = Py_None;
     (.ok (t.dv.getD noneId), c)
@@ -148,7 +152,7 @@ def defaultValueFor (E : Env) (t : TraitCore) (obj : Id) (c : Ctx) : Except Exc 
   else if t.dvt = Generated.CALLABLE_AND_ARGS_DEFAULT_VALUE then
     -- PyObject_Call(dv[0], dv[1], dv[2])
     let f := t.dv.getD noneId
-    let c1 := { c with fcalls := c.fcalls ++ [(f, obj)] }
+    let c1 := { c with fcalls := c.fcalls ++ [(f, obj, name)] }
     match E.factory f c.fcalls.length noneId with
     | .error e => (.error e, c1)
     | .ok r =>
@@ -157,7 +161,7 @@ def defaultValueFor (E : Env) (t : TraitCore) (obj : Id) (c : Ctx) : Except Exc 
   else if t.dvt = Generated.CALLABLE_DEFAULT_VALUE then
     -- result = default_value(obj); then validate
     let f := t.dv.getD noneId
-    let c1 := { c with fcalls := c.fcalls ++ [(f, obj)] }
+    let c1 := { c with fcalls := c.fcalls ++ [(f, obj, name)] }
     match E.factory f c.fcalls.length obj with
     | .error e => (.error e, c1)
     | .ok r =>
